@@ -1066,6 +1066,12 @@ package server
 //@ axiom pairKey_injective: forall a int, b int :: pairFst(pairKey(a, b)) == a && pairSnd(pairKey(a, b)) == b
 //@ unit (*Store).GetRelatedAtTime
 //@   prop C03 C06 C07
+//@   ghost curPassG bool = false
+//@   ghost curPG int = 0
+//@   ghost curRG int = 0
+//@   ghost curDG int = 0
+//@   ghost recBeforeG bool = false
+//@   ghost addBeforeG bool = false
 //@   ghost delG intmap
 //@   ghost earlierG intset = emptyset()
 //@   ghost prevPredG int = 0
@@ -1097,10 +1103,22 @@ package server
 //@     assert [C03,C06,C07:incoming-result-passed-the-dataset-time-and-predicate-filters] !(has(s.deletedDatasets, prevResult.DatasetID) && s.deletedDatasets[prevResult.DatasetID]) && (len(from.Datasets) == 0 || (exists k int :: 0 <= k && k < len(from.Datasets) && from.Datasets[k] == prevResult.DatasetID)) && prevResult.Time <= from.At && (from.Predicate == 0 || from.Predicate == prevResult.PredicateID)
 //@   at $1 call append#4 before
 //@     assert [C03,C06,C07:incoming-result-passed-the-dataset-time-and-predicate-filters] !(has(s.deletedDatasets, dsResult.DatasetID) && s.deletedDatasets[dsResult.DatasetID]) && (len(from.Datasets) == 0 || (exists k int :: 0 <= k && k < len(from.Datasets) && from.Datasets[k] == dsResult.DatasetID)) && dsResult.Time <= from.At && (from.Predicate == 0 || from.Predicate == dsResult.PredicateID)
+//@   at $1 call Item#2
+//@     ghost curPassG := false
+//@   at $1 call Uint64#5
+//@     ghost curPG := $result
+//@     ghost curRG := encBE64(k, 26)
+//@     ghost curDG := encBE32(k, 36)
+//@     ghost curPassG := from.Predicate == 0 || from.Predicate == $result
+//@     ghost recBeforeG := has(seenIds, curPG) && has(seenIds[curPG], curRG) && has(seenIds[curPG][curRG], curDG)
+//@     ghost addBeforeG := has(added, curPG) && has(added[curPG], curRG) && added[curPG][curRG]
+//@   at $1 call Next#2 before
+//@     assert [C03:every-scanned-passing-outgoing-key-is-recorded-as-seen-or-its-relation-is-already-covered] curPassG ==> (has(added, curPG) && has(added[curPG], curRG) && added[curPG][curRG]) || (has(seenIds, curPG) && has(seenIds[curPG], curRG) && has(seenIds[curPG][curRG], curDG))
 //@   at $1 call Equal#1 before
 //@     ghost earlierG := del != 1 ? add(earlierG, pairKey(predID, relatedID)) : earlierG
 //@   at $1 call append#5 before
 //@     assert [C03:outgoing-relation-not-already-returned-by-an-earlier-page] !has(earlierG, pairKey(predID, relatedID))
+//@     assert [C03:outgoing-result-is-the-first-scanned-passing-key-of-its-predicate-target-and-dataset-and-its-relation-is-not-yet-covered] curPassG && !recBeforeG && !addBeforeG && curPG == predID && curRG == relatedID && curDG == datasetID
 //@     assert [C07:result-dataset-not-deleted] !(has(s.deletedDatasets, datasetID) && s.deletedDatasets[datasetID])
 //@     assert [C03:result-dataset-in-scope] len(from.Datasets) == 0 || (exists k int :: 0 <= k && k < len(from.Datasets) && from.Datasets[k] == datasetID)
 //@     assert [C06:result-not-recorded-after-the-requested-instant] et <= from.At
